@@ -110,6 +110,9 @@ func newReport(res *simrt.Result) *Report {
 	}
 	r.Counts["yields"] = res.Yields
 	r.Counts["parks"] = res.Parks
+	if res.SpawnLags > 0 {
+		r.Counts["fault:spawn-lag"] = res.SpawnLags
+	}
 	r.Counts["pool_gets"] = simpoolStats.gets
 	r.Counts["pool_reuses"] = simpoolStats.reuses
 	return r
